@@ -381,3 +381,40 @@ pub fn gen_c14(out: &mut dyn Write, seed: u64, thorough: bool) {
     writeln!(out, "# scalar_values_exhaustive {}", n_scalars).unwrap();
     writeln!(out, "# random_strings {}", n).unwrap();
 }
+
+/// C04: streams produced by the Lean reference builder (file named by VERIF_STREAMS, lines
+/// "<cwhex> <byteshex> <selfcheck>"); the crate's decoder must return exactly the bytes.
+pub fn gen_c04(out: &mut dyn Write, _seed: u64, _thorough: bool) {
+    let path = std::env::var("VERIF_STREAMS").expect("VERIF_STREAMS");
+    let text = std::fs::read_to_string(path).expect("streams file");
+    let mut used = 0usize;
+    let mut dropped = 0usize;
+    let mut hist: BTreeMap<String, usize> = BTreeMap::new();
+    for line in text.lines() {
+        let parts: Vec<&str> = line.split(' ').collect();
+        if parts.len() != 3 {
+            continue;
+        }
+        if parts[2] != "ok" {
+            dropped += 1;
+            continue;
+        }
+        used += 1;
+        let cw = unhex(parts[0]);
+        let a = ddata(&cw);
+        writeln!(out, "O eq ok:{} {} => ok", parts[1], a).unwrap();
+        writeln!(out, "M ddata {} => {}", parts[0], a).unwrap();
+        // which latches occur (distribution)
+        for (c, name) in [(230u8, "c40"), (231, "base256"), (238, "x12"), (239, "text"), (240, "edifact"), (236, "macro05"), (237, "macro06"), (232, "fnc1")] {
+            if cw.contains(&c) {
+                *hist.entry(format!("streams_with_{}", name)).or_insert(0) += 1;
+            }
+        }
+        *hist.entry(format!("len_le_{}", match cw.len() { 0..=5 => 5, 6..=12 => 12, 13..=30 => 30, 31..=80 => 80, 81..=300 => 300, _ => 1558 })).or_insert(0) += 1;
+    }
+    writeln!(out, "# legal_streams {}", used).unwrap();
+    writeln!(out, "# dropped_by_spec_self_check {}", dropped).unwrap();
+    for (k, v) in &hist {
+        writeln!(out, "# {} {}", k, v).unwrap();
+    }
+}
